@@ -112,10 +112,10 @@ def main():
         for r in ex.map(run_one, paths):
             res.append(r)
             print("%-8s %s/%s  %s" % (r[2], r[1], r[0], r[3]))
-    bad = [r for r in res if r[2] not in ("KILLED",)]
+    bad = [r for r in res if r[2] not in ("KILLED", "SILENT")]
     shutil.rmtree(os.environ.get("VERIF_MUT_RS_TARGET", "/tmp/ts-verif-mut-rs-target"), ignore_errors=True)
     shutil.rmtree("/tmp/ts-verif-mut-witness-target", ignore_errors=True)
-    print("mutants: %d total, %d killed, %d not killed" % (len(res), len(res) - len(bad), len(bad)))
+    print("%s: %d total, %d as expected, %d not" % ("benign variants" if BENIGN else "mutants", len(res), len(res) - len(bad), len(bad)))
     out = os.environ.get("VERIF_MUTANT_SUMMARY")
     if out:
         json.dump([{"name": r[0], "property": r[1], "status": r[2], "detail": r[3]} for r in res], open(out, "w"), indent=1)
